@@ -113,6 +113,9 @@ def full_spec(doc_seed, base, kind):
     if kind in ("v10json", "v10yaml") and spec["secs"] and rng.random() < 0.3:
         spec["empty_keys"] = True       # 'properties:' / 'sections:' present and empty
         feats.append("empty-keys")
+    if kind == "v10xml" and rng.random() < 0.2:
+        spec["empty_elements"] = True        # <repository/> and <include></include> without content
+        feats.append("empty-elements")
     if kind in GOOD10 and len(spec["secs"]) >= 2 and rng.random() < 0.3:
         # version 1.0 allowed siblings of one name; the converter numbers them
         first = spec["secs"][0]["name"]
@@ -130,6 +133,9 @@ def xml10(spec):
         pad = "  " * ind
         out = ["%s<section>" % pad, "%s  <name>%s</name>" % (pad, sec["name"]),
                "%s  <type>%s</type>" % (pad, sec["type"])]
+        if spec.get("empty_elements"):
+            out.append("%s  <repository></repository>" % pad)
+            out.append("%s  <include/>" % pad)
         for p in sec["props"]:
             out.append("%s  <property>" % pad)
             out.append("%s    <name>%s</name>" % (pad, p["name"]))
@@ -150,6 +156,8 @@ def xml10(spec):
     if "date" in spec:
         lines.append("  <date>%s</date>" % spec["date"])
         lines.append("  <version>%s</version>" % spec["version"])
+    if spec.get("empty_elements"):
+        lines.append("  <repository/>")
     for sec in spec["secs"]:
         lines.extend(sec_xml(sec, 1))
     lines.append("</odML>")
